@@ -1,33 +1,605 @@
 /-
   The encoder produces the reference encoding (the development behind C03, C01).
-  TO BE PROVED: the theorems below.  Helper lemmas may be added here or in new files under IppModel/Lemmas/.
+  Helper lemmas live here and in IppModel/Lemmas/{Bytes,Utf8,SMap}.lean.
 -/
 import IppModel.Lemmas.Total
 import IppModel.Spec.ToWire
+import IppModel.Lemmas.Bytes
+import IppModel.Lemmas.Utf8
+import IppModel.Lemmas.SMap
 namespace Ipp
 open Gen Spec
 
 /-- the translated header-attribute list is the RFC 8011 order -/
 theorem headerAttrs_pin : Gen.headerAttrs = rfc8011Order := by decide
 
+/-! ## 1. syntactic level: `to_bytes` writes the token stream of the wire tree -/
+
+theorem tagOf_registry' (v : Value) (inColl : Bool) (hv : wfVal inColl false v = true) : tagOf v = registryTag v := by
+  cases v with
+  | int k _ => cases k <;> rfl
+  | str k _ => cases k <;> rfl
+  | lang k _ _ => cases k <;> rfl
+  | array vs => simp [wfVal] at hv
+  | _ => rfl
+
+theorem toksBytes_append (a b : List Tok) : toksBytes (a ++ b) = toksBytes a ++ toksBytes b := by
+  induction a with
+  | nil => rfl
+  | cons t ts ih => simp [toksBytes, ih]
+
+def isArray : Value → Bool
+  | .array _ => true
+  | _ => false
+
+theorem toWVs_nonarray (v : Value) (h : isArray v = false) : toWVs v = [toWV v] := by
+  cases v <;> first | rfl | simp [isArray] at h
+
+theorem wfVal_nonarray (c : Bool) (v : Value) (h : isArray v = false) : wfVal c true v = wfVal c false v := by
+  cases v <;> first | rfl | simp [isArray] at h
+
+/-- the value field written by `to_bytes` for a scalar is the length-prefixed RFC body -/
+theorem encValue_scalar (v : Value) (ha : isArray v = false) (hc : ∀ ms, v ≠ .coll ms) :
+    encValue v = be16 (scalarBody v).length ++ scalarBody v := by
+  cases v with
+  | array vs => simp [isArray] at ha
+  | coll ms => exact absurd rfl (hc ms)
+  | lang k l t =>
+    simp only [encValue, scalarBody]
+    congr 2
+    simp [be16]; omega
+  | bool b => cases b <;> rfl
+  | _ => rfl
+
+
+
+theorem toksBytes_plain (t : UInt8) (name body : Bytes) :
+    toksBytes [⟨t, name, body⟩] = t :: (be16 name.length ++ (name ++ (be16 body.length ++ body))) := by
+  simp [toksBytes, tokBytes]
+
+theorem toksAttr_cons (n : Bytes) (v : WVal) (vs : List WVal) :
+    toksAttr ⟨n, v :: vs⟩ = toksV n v ++ toksVs vs := rfl
+
+theorem toksVs_eq_toksAttr (vs : List WVal) : toksVs vs = toksAttr ⟨[], vs⟩ := by
+  cases vs <;> rfl
+
+theorem enc_Vs_array (name : Bytes) (v0 : Value) (vs : List Value)
+    (h1 : tagOf v0 :: (be16 name.length ++ (name ++ encValue v0)) = toksBytes (toksV name (toWV v0)))
+    (h2 : encElems vs false = toksBytes (toksVs (toWVl vs))) :
+    tagOf (.array (v0 :: vs)) :: (be16 name.length ++ (name ++ encValue (.array (v0 :: vs)))) =
+      toksBytes (toksAttr ⟨name, toWVs (.array (v0 :: vs))⟩) := by
+  simp only [toWVs, toWVl, toksAttr_cons, toksBytes_append, ← h1, ← h2, tagOf, tagOfFirst, encValue, encElems]
+  simp
+
+theorem enc_Vs_nonarray (name : Bytes) (v : Value) (ha : isArray v = false)
+    (h1 : tagOf v :: (be16 name.length ++ (name ++ encValue v)) = toksBytes (toksV name (toWV v))) :
+    tagOf v :: (be16 name.length ++ (name ++ encValue v)) = toksBytes (toksAttr ⟨name, toWVs v⟩) := by
+  rw [toWVs_nonarray _ ha, toksAttr_cons]
+  simp only [toksVs, List.append_nil]
+  exact h1
+
+mutual
+theorem enc_V (c : Bool) (v : Value) (h : wfVal c false v = true) (name : Bytes) :
+    tagOf v :: (be16 name.length ++ (name ++ encValue v)) = toksBytes (toksV name (toWV v)) := by
+  cases hv : v with
+  | array vs => subst hv; simp [wfVal] at h
+  | coll ms =>
+    subst hv
+    simp only [wfVal] at h
+    have := enc_Ms ms h
+    simp only [toWV, toksV, toksBytes, tokBytes, toksBytes_append, encValue, tagOf, this]
+    simp [be16, be32, endCollTag, ValueTag.u8, T.Collection, ValueTag.code]
+  | _ =>
+    all_goals
+      subst hv
+      rw [tagOf_registry' _ c h, encValue_scalar _ rfl (by intro ms; simp)]
+      simp only [toWV, toksV, toksBytes_plain]
+theorem enc_Vl (c : Bool) (vs : List Value) (h : wfElems c vs = true) :
+    encElems vs false = toksBytes (toksVs (toWVl vs)) := by
+  cases vs with
+  | nil => rfl
+  | cons v vs =>
+    simp only [wfElems, Bool.and_eq_true] at h
+    have h1 := enc_V c v h.1 []
+    have h2 := enc_Vl c vs h.2
+    simp only [encElems, toWVl, toksVs, toksBytes_append, ← h1, ← h2]
+    simp
+theorem enc_Ms (ms : List (Bytes × Value)) (h : wfMembers ms = true) :
+    encMembers ms = toksBytes (toksMs (toWMs ms)) := by
+  cases ms with
+  | nil => rfl
+  | cons p ms =>
+    obtain ⟨k, v⟩ := p
+    simp only [wfMembers, Bool.and_eq_true] at h
+    have h2 := enc_Ms ms h.2
+    have h1 : tagOf v :: (be16 ([] : Bytes).length ++ ([] ++ encValue v)) = toksBytes (toksAttr ⟨[], toWVs v⟩) := by
+      have hv := h.1.2
+      cases v with
+      | array vs =>
+        cases vs with
+        | nil => simp [wfVal] at hv
+        | cons v0 vs =>
+          simp only [wfVal, wfElems, Bool.and_eq_true] at hv
+          exact enc_Vs_array [] v0 vs (enc_V true v0 hv.2.1 []) (enc_Vl true vs hv.2.2)
+      | _ =>
+        all_goals
+          rw [wfVal_nonarray _ _ rfl] at hv
+          exact enc_Vs_nonarray [] _ rfl (enc_V true _ hv [])
+    simp only [encMembers, toWMs, toksMs, toksBytes, toksBytes_append, tokBytes, toksVs_eq_toksAttr, ← h1, ← h2]
+    simp [memberNameTag, StrKind.vtag, T.MemberAttrName, ValueTag.u8, ValueTag.code]
+end
+
+theorem enc_Vs (c : Bool) (v : Value) (h : wfVal c true v = true) (name : Bytes) :
+    tagOf v :: (be16 name.length ++ (name ++ encValue v)) = toksBytes (toksAttr ⟨name, toWVs v⟩) := by
+  cases v with
+  | array vs =>
+    cases vs with
+    | nil => simp [wfVal] at h
+    | cons v0 vs =>
+      simp only [wfVal, wfElems, Bool.and_eq_true] at h
+      exact enc_Vs_array name v0 vs (enc_V c v0 h.2.1 name) (enc_Vl c vs h.2.2)
+  | _ =>
+    all_goals
+      rw [wfVal_nonarray _ _ rfl] at h
+      exact enc_Vs_nonarray name _ rfl (enc_V c _ h name)
+
+
+
+/-! ### attributes and groups: syntactic level -/
+
+theorem encAttr_eq_toks (n : Bytes) (v : Value) (h : wfVal false true v = true) :
+    encAttr n v = toksBytes (toksAttr (toWAttr (n, v))) := enc_Vs false v h n
+
+theorem encAttrs_append (a b : List (Bytes × Value)) : encAttrs (a ++ b) = encAttrs a ++ encAttrs b := by
+  induction a with
+  | nil => rfl
+  | cons p r ih => obtain ⟨n, v⟩ := p; simp [encAttrs, ih]
+
+theorem encAttrs_eq_toks (X : List (Bytes × Value)) (h : ∀ p ∈ X, wfVal false true p.2 = true) :
+    encAttrs X = toksBytes (toksAttrs (toWAttrs X)) := by
+  induction X with
+  | nil => rfl
+  | cons p r ih =>
+    obtain ⟨n, v⟩ := p
+    simp only [encAttrs, toWAttrs, toksAttrs, toksBytes_append]
+    rw [encAttr_eq_toks n v (h (n, v) List.mem_cons_self), ih (fun q hq => h q (List.mem_cons_of_mem _ hq))]
+
+theorem encHeaderAttrs_eq (attrs : List (Bytes × Value)) (hs : List Bytes) :
+    encHeaderAttrs attrs hs = encAttrs (hs.filterMap fun h => (sget h attrs).map fun v => (h, v)) := by
+  induction hs with
+  | nil => rfl
+  | cons h hs ih =>
+    simp only [encHeaderAttrs, List.filterMap_cons, ih]
+    cases sget h attrs with
+    | none => simp
+    | some v => simp [encAttrs]
+
+theorem isHeaderAttr_eq (n : Bytes) : isHeaderAttr n = rfc8011Order.contains n := by
+  simp only [isHeaderAttr, headerAttrs_pin, List.contains_eq_any_beq]
+  congr 1
+  funext h
+  exact Bool.beq_comm
+
+theorem encNonHeaderAttrs_eq (attrs : List (Bytes × Value)) :
+    encNonHeaderAttrs attrs = encAttrs (attrs.filter fun p => !rfc8011Order.contains p.1) := by
+  induction attrs with
+  | nil => rfl
+  | cons p r ih =>
+    obtain ⟨n, v⟩ := p
+    simp only [encNonHeaderAttrs, List.filter_cons, isHeaderAttr_eq, ih]
+    cases rfc8011Order.contains n <;> simp [encAttrs]
+
+theorem encOp_eq (attrs : List (Bytes × Value)) :
+    encHeaderAttrs attrs headerAttrs ++ encNonHeaderAttrs attrs = encAttrs (opOrder attrs) := by
+  rw [encHeaderAttrs_eq, encNonHeaderAttrs_eq, headerAttrs_pin, opOrder, encAttrs_append]
+
+theorem mem_opOrder_mem {attrs : List (Bytes × Value)} {p : Bytes × Value} (h : p ∈ opOrder attrs) : p ∈ attrs := by
+  simp only [opOrder, List.mem_append, List.mem_filterMap, List.mem_filter, Option.map_eq_some_iff] at h
+  rcases h with ⟨k, _, v, hv, rfl⟩ | ⟨h, _⟩
+  · exact sget_mem hv
+  · exact h
+
+theorem wfAttrC_val {p : Bytes × Value} (h : wfAttrC p = true) : wfVal false true p.2 = true := by
+  simp only [wfAttrC, Bool.and_eq_true] at h; exact h.1.2
+
+theorem encGroup_eq (g : Group) (h : ∀ p ∈ g.attrs, wfAttrC p = true) : encGroup g = serGroup (toWGroup g) := by
+  simp only [encGroup, serGroup, toWGroup, DelimiterTag.u8]
+  rw [encAttrs_eq_toks _ (fun p hp => wfAttrC_val (h p hp))]
+
+theorem encGroups_eq (gs : List Group) (h : ∀ g ∈ gs, ∀ p ∈ g.attrs, wfAttrC p = true) :
+    encGroups gs = serGroups (toWGroups gs) := by
+  induction gs with
+  | nil => rfl
+  | cons g gs ih =>
+    simp only [encGroups, toWGroups, serGroups]
+    rw [encGroup_eq g (h g List.mem_cons_self), ih (fun g' hg' => h g' (List.mem_cons_of_mem _ hg'))]
+
+/-- what a listing inherits from a canonical message -/
+theorem listing_wf {gs L : List Group} (hwf : gs.all wfGroupC = true) (hL : ListingOf gs L) :
+    ∀ l ∈ L, l.tag ≠ .EndOfAttributes ∧ ∀ p ∈ l.attrs, wfAttrC p = true := by
+  induction gs generalizing L with
+  | nil =>
+    cases L with
+    | nil => intro l hl; cases hl
+    | cons l ls => exact absurd hL (by simp [ListingOf])
+  | cons g gs ih =>
+    cases L with
+    | nil => exact absurd hL (by simp [ListingOf])
+    | cons l ls =>
+      simp only [ListingOf] at hL
+      simp only [List.all_cons, Bool.and_eq_true] at hwf
+      obtain ⟨ht, hp, hrest⟩ := hL
+      intro l' hl'
+      rcases List.mem_cons.mp hl' with e | hl'
+      · subst e
+        have hg := hwf.1
+        simp only [wfGroupC, Bool.and_eq_true, List.all_eq_true, bne_iff_ne] at hg
+        refine ⟨by rw [ht]; exact hg.1.1, fun p hp' => hg.2 p (hp.mem_iff.mp hp')⟩
+      · exact ih hwf.2 hrest l' hl'
+
+theorem listing_head {gs L : List Group} (hwf : wfMsg gs = true) (hL : ListingOf gs L) :
+    ∃ g gs' l ls, gs = g :: gs' ∧ L = l :: ls ∧ g.tag = .OperationAttributes ∧ l.tag = .OperationAttributes ∧
+      l.attrs.Perm g.attrs ∧ ListingOf gs' ls := by
+  cases gs with
+  | nil => simp [wfMsg] at hwf
+  | cons g gs' =>
+    cases L with
+    | nil => exact absurd hL (by simp [ListingOf])
+    | cons l ls =>
+      simp only [ListingOf] at hL
+      simp only [wfMsg, Bool.and_eq_true, beq_iff_eq] at hwf
+      exact ⟨g, gs', l, ls, rfl, rfl, hwf.1, by rw [hL.1]; exact hwf.1, hL.2.1, hL.2.2⟩
+
+/-! ## 2. the wire tree is well-formed -/
+
+theorem wfBody_lang_enc (t : UInt8) (ht : t = 0x35 ∨ t = 0x36) (l x : Bytes) (hl : l.length < 65536) (hx : x.length < 65536) :
+    wfBody t (be16 l.length ++ (l ++ (be16 x.length ++ x))) = true := by
+  have h1 : ¬ (t = 0x21 ∨ t = 0x23) := by rcases ht with rfl | rfl <;> decide
+  have h2 : ¬ (t = 0x22) := by rcases ht with rfl | rfl <;> decide
+  have h3 : ¬ (t = 0x33) := by rcases ht with rfl | rfl <;> decide
+  have h4 : ¬ (t = 0x31) := by rcases ht with rfl | rfl <;> decide
+  have h5 : ¬ (t = 0x32) := by rcases ht with rfl | rfl <;> decide
+  simp only [wfBody, h1, h2, h3, h4, h5, ht, if_false, if_true, be16, List.cons_append, List.nil_append,
+    unbe16_be16 _ hl, List.drop_left]
+  simp [unbe16_be16 _ hx]
+
+theorem wf_scalar (c : Bool) (v : Value) (h : wfVal c false v = true) (hc : ∀ ms, v ≠ .coll ms) :
+    wfV c (.plain (registryTag v) (scalarBody v)) = true := by
+  cases v with
+  | array vs => simp [wfVal] at h
+  | coll ms => exact absurd rfl (hc ms)
+  | int k x => cases k <;> simp [wfV, registryTag, scalarBody, valueTagOk, wfBody, be32]
+  | bool b => simp [wfV, registryTag, scalarBody, valueTagOk, wfBody]
+  | range lo hi => simp [wfV, registryTag, scalarBody, valueTagOk, wfBody, be32]
+  | dateTime => simp [wfV, registryTag, scalarBody, valueTagOk, wfBody, be16]
+  | resolution => simp [wfV, registryTag, scalarBody, valueTagOk, wfBody, be32]
+  | noValue => simp [wfV, registryTag, scalarBody, valueTagOk, wfBody]
+  | str k s =>
+    simp only [wfVal, Bool.and_eq_true, decide_eq_true_eq] at h
+    obtain ⟨⟨_, hl⟩, hk⟩ := h
+    cases k <;> simp [wfV, registryTag, scalarBody, valueTagOk, wfBody, hl] <;> first | decide | simp_all
+  | lang k l t =>
+    simp only [wfVal, Bool.and_eq_true, decide_eq_true_eq] at h
+    have hb := wfBody_lang_enc (registryTag (.lang k l t)) (by cases k <;> simp [registryTag]) l t (by omega) (by omega)
+    simp only [wfV, scalarBody, hb, Bool.and_true]
+    cases k <;> simp [registryTag, valueTagOk, be16] <;> first | omega | (refine ⟨by decide, by omega⟩)
+  | other t d =>
+    simp only [wfVal, otherTagOk, Bool.and_eq_true, decide_eq_true_eq] at h
+    obtain ⟨⟨⟨h1, h2⟩, h3⟩, h4⟩ := h
+    simp only [List.contains_cons, List.contains_nil, Bool.or_false, Bool.not_eq_true', Bool.or_eq_false_iff,
+      beq_eq_false_iff_ne, ne_eq] at h3
+    simp only [wfV, registryTag, scalarBody, valueTagOk, wfBody, Bool.and_eq_true, bne_iff_ne, ne_eq]
+    simp [h1, h2, h3, h4]
+
+
+theorem wf_Vs_array (c : Bool) (v0 : Value) (vs : List Value)
+    (h1 : wfV c (toWV v0) = true) (h2 : wfVs c (toWVl vs) = true) :
+    wfVs c (toWVs (.array (v0 :: vs))) = true ∧ (toWVs (.array (v0 :: vs))).isEmpty = false := by
+  simp [toWVs, toWVl, wfVs, h1, h2]
+
+theorem wf_Vs_nonarray (c : Bool) (v : Value) (ha : isArray v = false) (h1 : wfV c (toWV v) = true) :
+    wfVs c (toWVs v) = true ∧ (toWVs v).isEmpty = false := by
+  simp [toWVs_nonarray _ ha, wfVs, h1]
+
+mutual
+theorem wf_V (c : Bool) (v : Value) (h : wfVal c false v = true) : wfV c (toWV v) = true := by
+  cases hv : v with
+  | array vs => subst hv; simp [wfVal] at h
+  | coll ms =>
+    subst hv
+    simp only [wfVal] at h
+    simp only [toWV, wfV]
+    exact wf_Ms ms h
+  | _ =>
+    all_goals
+      subst hv
+      exact wf_scalar c _ h (by intro ms; simp)
+theorem wf_Vl (c : Bool) (vs : List Value) (h : wfElems c vs = true) : wfVs c (toWVl vs) = true := by
+  cases vs with
+  | nil => rfl
+  | cons v vs =>
+    simp only [wfElems, Bool.and_eq_true] at h
+    simp only [toWVl, wfVs, Bool.and_eq_true]
+    exact ⟨wf_V c v h.1, wf_Vl c vs h.2⟩
+theorem wf_Ms (ms : List (Bytes × Value)) (h : wfMembers ms = true) : wfMs (toWMs ms) = true := by
+  cases ms with
+  | nil => rfl
+  | cons p ms =>
+    obtain ⟨k, v⟩ := p
+    simp only [wfMembers, Bool.and_eq_true, decide_eq_true_eq] at h
+    have h2 := wf_Ms ms h.2
+    have h1 : wfVs true (toWVs v) = true ∧ (toWVs v).isEmpty = false := by
+      have hv := h.1.2
+      cases v with
+      | array vs =>
+        cases vs with
+        | nil => simp [wfVal] at hv
+        | cons v0 vs =>
+          simp only [wfVal, wfElems, Bool.and_eq_true] at hv
+          exact wf_Vs_array true v0 vs (wf_V true v0 hv.2.1) (wf_Vl true vs hv.2.2)
+      | _ =>
+        all_goals
+          rw [wfVal_nonarray _ _ rfl] at hv
+          exact wf_Vs_nonarray true _ rfl (wf_V true _ hv)
+    simp [toWMs, wfMs, h.1.1.2, h1.1, h1.2, h2]
+end
+
+theorem wf_Vs (c : Bool) (v : Value) (h : wfVal c true v = true) :
+    wfVs c (toWVs v) = true ∧ (toWVs v).isEmpty = false := by
+  cases v with
+  | array vs =>
+    cases vs with
+    | nil => simp [wfVal] at h
+    | cons v0 vs =>
+      simp only [wfVal, wfElems, Bool.and_eq_true] at h
+      exact wf_Vs_array c v0 vs (wf_V c v0 h.2.1) (wf_Vl c vs h.2.2)
+  | _ =>
+    all_goals
+      rw [wfVal_nonarray _ _ rfl] at h
+      exact wf_Vs_nonarray c _ rfl (wf_V c _ h)
+
+theorem wfAttr_toWAttr (p : Bytes × Value) (h : wfAttrC p = true) : wfAttr (toWAttr p) = true := by
+  simp only [wfAttrC, Bool.and_eq_true, decide_eq_true_eq] at h
+  obtain ⟨⟨⟨⟨h1, _⟩, h3⟩, h4⟩, _⟩ := h
+  have := wf_Vs false p.2 h4
+  simp [wfAttr, toWAttr, h1, h3, this.1, this.2]
+
+theorem wfAttrs_toWAttrs (X : List (Bytes × Value)) (h : ∀ p ∈ X, wfAttrC p = true) :
+    wfAttrs (toWAttrs X) = true := by
+  induction X with
+  | nil => rfl
+  | cons p r ih =>
+    simp only [toWAttrs, wfAttrs, Bool.and_eq_true]
+    exact ⟨wfAttr_toWAttr p (h p List.mem_cons_self), ih (fun q hq => h q (List.mem_cons_of_mem _ hq))⟩
+
+theorem delimOf_code (t : DelimiterTag) (h : t ≠ .EndOfAttributes) : delimOf (UInt8.ofNat t.code) = some t := by
+  cases t <;> first | rfl | exact absurd rfl h
+
+theorem wfGroups_toWGroups (ls : List Group)
+    (h : ∀ l ∈ ls, l.tag ≠ .EndOfAttributes ∧ ∀ p ∈ l.attrs, wfAttrC p = true) :
+    wfGroups (toWGroups ls) = true := by
+  induction ls with
+  | nil => rfl
+  | cons l ls ih =>
+    have hl := h l List.mem_cons_self
+    simp only [toWGroups, wfGroups, wfGroup, toWGroup, delimOf_code _ hl.1, Option.isSome_some, Bool.true_and,
+      wfAttrs_toWAttrs _ hl.2]
+    exact ih (fun g' hg' => h g' (List.mem_cons_of_mem _ hg'))
+
+/-! ## 3. the wire tree means the message -/
+
+theorem decodePlain_lang (k : LangKind) (l x : Bytes) (hl : l.length < 65536) (hx : x.length < 65536) :
+    decodePlain (registryTag (.lang k l x)) (be16 l.length ++ (l ++ (be16 x.length ++ x))) =
+      .lang k (lossy l) (lossy x) := by
+  cases k <;>
+  · simp only [decodePlain, registryTag, be16, List.cons_append, List.nil_append, unbe16_be16 _ hl, List.drop_left,
+      List.take_left, unbe16_be16 _ hx]
+    simp
+
+theorem decodePlain_scalar (c : Bool) (v : Value) (h : wfVal c false v = true) (hc : ∀ ms, v ≠ .coll ms) :
+    decodePlain (registryTag v) (scalarBody v) = v := by
+  cases v with
+  | array vs => simp [wfVal] at h
+  | coll ms => exact absurd rfl (hc ms)
+  | int k x => cases k <;> simp [registryTag, scalarBody, decodePlain, be32, unbe32_be32']
+  | bool b => cases b <;> simp [registryTag, scalarBody, decodePlain]
+  | range lo hi => simp [registryTag, scalarBody, decodePlain, be32, unbe32_be32']
+  | dateTime y mo d hh mi s ds dir uh um =>
+    simp only [wfVal, decide_eq_true_eq] at h
+    simp [registryTag, scalarBody, decodePlain, be16, u16_unbe16_be16', u8_toNat_ofNat_lt _ h]
+  | resolution => simp [registryTag, scalarBody, decodePlain, be32, unbe32_be32']
+  | noValue => simp [registryTag, decodePlain]
+  | str k s =>
+    simp only [wfVal, Bool.and_eq_true, decide_eq_true_eq] at h
+    have := lossy_id s h.1.1
+    cases k <;> simp [registryTag, scalarBody, decodePlain, this]
+  | lang k l t =>
+    simp only [wfVal, Bool.and_eq_true, decide_eq_true_eq] at h
+    simp only [scalarBody]
+    rw [decodePlain_lang k l t (by omega) (by omega), lossy_id l h.1.1, lossy_id t h.1.2]
+  | other t d =>
+    simp only [wfVal, otherTagOk, Bool.and_eq_true, decide_eq_true_eq] at h
+    obtain ⟨⟨⟨h1, h2⟩, h3⟩, h4⟩ := h
+    simp only [List.contains_cons, List.contains_nil, Bool.or_false, Bool.not_eq_true', Bool.or_eq_false_iff,
+      beq_eq_false_iff_ne, ne_eq] at h3
+    simp only [registryTag, scalarBody, decodePlain]
+    simp [h3]
+
+
+theorem interp_Vs_array (v0 : Value) (vs : List Value) (hlen : 2 ≤ (v0 :: vs).length)
+    (h1 : interpV (toWV v0) = v0) (h2 : interpVs (toWVl vs) = vs) :
+    listOrValue (interpVs (toWVs (.array (v0 :: vs)))) = .array (v0 :: vs) := by
+  simp only [toWVs, toWVl, interpVs, h1, h2]
+  cases vs with
+  | nil => simp at hlen
+  | cons a r => rfl
+
+theorem interp_Vs_nonarray (v : Value) (ha : isArray v = false) (h1 : interpV (toWV v) = v) :
+    listOrValue (interpVs (toWVs v)) = v := by
+  simp only [toWVs_nonarray _ ha, interpVs, h1, listOrValue]
+
+mutual
+theorem interp_V (c : Bool) (v : Value) (h : wfVal c false v = true) (hs : collsSorted v = true) :
+    interpV (toWV v) = v := by
+  cases hv : v with
+  | array vs => subst hv; simp [wfVal] at h
+  | coll ms =>
+    subst hv
+    simp only [wfVal] at h
+    simp only [collsSorted, Bool.and_eq_true] at hs
+    simp only [toWV, interpV]
+    rw [interp_Ms ms h hs.2 [], sinsertAll_self hs.1]
+  | _ =>
+    all_goals
+      subst hv
+      exact decodePlain_scalar c _ h (by intro ms; simp)
+theorem interp_Vl (c : Bool) (vs : List Value) (h : wfElems c vs = true) (hs : collsSortedL vs = true) :
+    interpVs (toWVl vs) = vs := by
+  cases vs with
+  | nil => rfl
+  | cons v vs =>
+    simp only [wfElems, Bool.and_eq_true] at h
+    simp only [collsSortedL, Bool.and_eq_true] at hs
+    simp only [toWVl, interpVs]
+    rw [interp_V c v h.1 hs.1, interp_Vl c vs h.2 hs.2]
+theorem interp_Ms (ms : List (Bytes × Value)) (h : wfMembers ms = true) (hs : collsSortedM ms = true)
+    (m : List (Bytes × Value)) : interpMs (toWMs ms) m = sinsertAll ms m := by
+  cases ms with
+  | nil => rfl
+  | cons p ms =>
+    obtain ⟨k, v⟩ := p
+    simp only [wfMembers, Bool.and_eq_true, decide_eq_true_eq] at h
+    simp only [collsSortedM, Bool.and_eq_true] at hs
+    have h1 : listOrValue (interpVs (toWVs v)) = v := by
+      have hv := h.1.2
+      have hsv := hs.1
+      cases v with
+      | array vs =>
+        cases vs with
+        | nil => simp [wfVal] at hv
+        | cons v0 vs =>
+          simp only [wfVal, wfElems, Bool.and_eq_true, decide_eq_true_eq] at hv
+          simp only [collsSorted, collsSortedL, Bool.and_eq_true] at hsv
+          exact interp_Vs_array v0 vs hv.1.2 (interp_V true v0 hv.2.1 hsv.1) (interp_Vl true vs hv.2.2 hsv.2)
+      | _ =>
+        all_goals
+          rw [wfVal_nonarray _ _ rfl] at hv
+          exact interp_Vs_nonarray _ rfl (interp_V true _ hv hsv)
+    simp only [toWMs, interpMs, h1, lossy_id k h.1.1.1, sinsertAll_cons]
+    exact interp_Ms ms h.2 hs.2 _
+end
+
+theorem interp_Vs (c : Bool) (v : Value) (h : wfVal c true v = true) (hs : collsSorted v = true) :
+    listOrValue (interpVs (toWVs v)) = v := by
+  cases v with
+  | array vs =>
+    cases vs with
+    | nil => simp [wfVal] at h
+    | cons v0 vs =>
+      simp only [wfVal, wfElems, Bool.and_eq_true, decide_eq_true_eq] at h
+      simp only [collsSorted, collsSortedL, Bool.and_eq_true] at hs
+      exact interp_Vs_array v0 vs h.1.2 (interp_V c v0 h.2.1 hs.1) (interp_Vl c vs h.2.2 hs.2)
+  | _ =>
+    all_goals
+      rw [wfVal_nonarray _ _ rfl] at h
+      exact interp_Vs_nonarray _ rfl (interp_V c _ h hs)
+
+theorem interpAttr_toWAttr (p : Bytes × Value) (h : wfAttrC p = true) : interpAttr (toWAttr p) = p := by
+  simp only [wfAttrC, Bool.and_eq_true, decide_eq_true_eq] at h
+  obtain ⟨⟨⟨⟨_, h2⟩, _⟩, h4⟩, h5⟩ := h
+  obtain ⟨n, v⟩ := p
+  simp only [interpAttr, toWAttr, lossy_id n h2, interp_Vs false v h4 h5]
+
+theorem interpAttrs_toWAttrs (X : List (Bytes × Value)) (h : ∀ p ∈ X, wfAttrC p = true) (m : List (Bytes × Value)) :
+    interpAttrs (toWAttrs X) m = sinsertAll X m := by
+  induction X generalizing m with
+  | nil => rfl
+  | cons p r ih =>
+    simp only [toWAttrs, interpAttrs, interpAttr_toWAttr p (h p List.mem_cons_self), sinsertAll_cons]
+    exact ih (fun q hq => h q (List.mem_cons_of_mem _ hq)) _
+
+/-- with unique names the wire order of the operation group lists exactly the group's attributes -/
+theorem mem_opOrder_iff {attrs : List (Bytes × Value)} (hf : KeyFn attrs) (p : Bytes × Value) :
+    p ∈ opOrder attrs ↔ p ∈ attrs := by
+  refine ⟨mem_opOrder_mem, fun hp => ?_⟩
+  simp only [opOrder, List.mem_append, List.mem_filterMap, List.mem_filter, Option.map_eq_some_iff]
+  by_cases hc : rfc8011Order.contains p.1 = true
+  · left
+    obtain ⟨n, v⟩ := p
+    exact ⟨n, List.contains_iff_mem.mp hc, v, (sget_iff_mem hf n v).mpr hp, rfl⟩
+  · right
+    exact ⟨hp, by simpa using hc⟩
+
+theorem interpGroups_toWGroups (gs ls : List Group) (hwf : gs.all wfGroupC = true) (hL : ListingOf gs ls) :
+    interpGroups (toWGroups ls) = gs := by
+  induction gs generalizing ls with
+  | nil =>
+    cases ls with
+    | nil => rfl
+    | cons l ls => exact absurd hL (by simp [ListingOf])
+  | cons g gs ih =>
+    cases ls with
+    | nil => exact absurd hL (by simp [ListingOf])
+    | cons l ls =>
+      simp only [ListingOf] at hL
+      simp only [List.all_cons, Bool.and_eq_true] at hwf
+      obtain ⟨ht, hp, hrest⟩ := hL
+      have hg := hwf.1
+      simp only [wfGroupC, Bool.and_eq_true, List.all_eq_true, bne_iff_ne] at hg
+      obtain ⟨⟨hne, hsorted⟩, hattrs⟩ := hg
+      simp only [toWGroups, interpGroups, ih ls hwf.2 hrest, interpGroup, toWGroup]
+      rw [delimOf_code _ (by rw [ht]; exact hne),
+        interpAttrs_toWAttrs _ (fun p hp' => hattrs p (hp.mem_iff.mp hp')), sinsertAll_perm hsorted hp, ht]
+      rfl
+
+/-! ## the theorems -/
+
 theorem encodeMsg_eq_ser (h : Header) (gs L : List Group) (hwf : wfMsg gs = true) (hL : ListingOf gs L) :
     encodeMsg h L = ser (toWireMsg h L) := by
-  sorry
+  obtain ⟨g, gs', l, ls, rfl, rfl, hg, hl, hperm, hrest⟩ := listing_head hwf hL
+  have hall : (g :: gs').all wfGroupC = true := by
+    simp only [wfMsg, Bool.and_eq_true] at hwf; exact hwf.2
+  have hw := listing_wf hall hL
+  have hop : isOpGroup l = true := by simp [isOpGroup, hl]
+  simp only [encodeMsg, encAttributes, encHeader, firstOp, restGroups, hop, if_true, toWireMsg, ser, serGroups, serGroup,
+    encOp_eq]
+  rw [encAttrs_eq_toks _ (fun p hp => wfAttrC_val ((hw l List.mem_cons_self).2 p (mem_opOrder_mem hp))),
+    encGroups_eq ls (fun g' hg' => (hw g' (List.mem_cons_of_mem _ hg')).2)]
+  simp [DelimiterTag.u8, DelimiterTag.code]
 
 theorem toWireMsg_wf (h : Header) (gs L : List Group) (hwf : wfMsg gs = true) (hL : ListingOf gs L) :
     wfWire (toWireMsg h L) = true := by
-  sorry
+  obtain ⟨g, gs', l, ls, rfl, rfl, hg, hl, hperm, hrest⟩ := listing_head hwf hL
+  have hall : (g :: gs').all wfGroupC = true := by
+    simp only [wfMsg, Bool.and_eq_true] at hwf; exact hwf.2
+  have hw := listing_wf hall hL
+  simp only [toWireMsg, wfWire, wfGroups, wfGroup, Bool.and_eq_true]
+  refine ⟨⟨rfl, ?_⟩, ?_⟩
+  · exact wfAttrs_toWAttrs _ (fun p hp => (hw l List.mem_cons_self).2 p (mem_opOrder_mem hp))
+  · exact wfGroups_toWGroups ls (fun g' hg' => hw g' (List.mem_cons_of_mem _ hg'))
 
 theorem interp_toWireMsg (h : Header) (gs L : List Group) (hwf : wfMsg gs = true) (hL : ListingOf gs L) :
     interp (toWireMsg h L) = (h, gs) := by
-  sorry
+  obtain ⟨g, gs', l, ls, rfl, rfl, hg, hl, hperm, hrest⟩ := listing_head hwf hL
+  have hall : (g :: gs').all wfGroupC = true := by
+    simp only [wfMsg, Bool.and_eq_true] at hwf; exact hwf.2
+  simp only [List.all_cons, Bool.and_eq_true] at hall
+  have hgc := hall.1
+  simp only [wfGroupC, Bool.and_eq_true, List.all_eq_true, bne_iff_ne] at hgc
+  obtain ⟨⟨hne, hsorted⟩, hattrs⟩ := hgc
+  have hfl : KeyFn l.attrs := KeyFn_of_mem (sortedB_keyFn hsorted) (fun p hp => hperm.mem_iff.mp hp)
+  have hmem : ∀ p, p ∈ opOrder l.attrs ↔ p ∈ g.attrs := fun p => (mem_opOrder_iff hfl p).trans hperm.mem_iff
+  simp only [toWireMsg, interp, interpGroups, interpGroup, interpGroups_toWGroups gs' ls hall.2 hrest]
+  rw [interpAttrs_toWAttrs _ (fun p hp => hattrs p ((hmem p).mp hp)), sinsertAll_eq_of_mem hsorted hmem]
+  cases g with
+  | mk t a => simp only at hg; subst hg; rfl
 
 /-- every value on the wire carries the registered tag of its syntax -/
-theorem tagOf_registry (v : Value) (inColl : Bool) (hv : wfVal inColl false v = true) : tagOf v = registryTag v := by
-  sorry
+theorem tagOf_registry (v : Value) (inColl : Bool) (hv : wfVal inColl false v = true) : tagOf v = registryTag v :=
+  tagOf_registry' v inColl hv
 
 /-- "a one-element set is identified with its element": both encode to the same bytes -/
 theorem encAttr_singleton (n : Bytes) (v : Value) : encAttr n (.array [v]) = encAttr n v := by
-  sorry
+  simp only [encAttr, tagOf, tagOfFirst, encValue, encElems, if_true, List.nil_append, List.append_nil]
 
 end Ipp
